@@ -20,7 +20,7 @@ def values(lo=-1e3, hi=1e3):
 
 
 @st.composite
-def array(draw, shape, lo=-1e3, hi=1e3, styles=("raw", "raw", "int", "sparse")):
+def array(draw, shape, lo=-1e3, hi=1e3, styles=("raw", "raw", "int", "sparse"), tiny=1e-100):
     """float array of the given shape, as nested lists.
 
     One float draw per element (no ``one_of`` per element: 5x faster) plus one drawn *style* per array:
@@ -39,8 +39,17 @@ def array(draw, shape, lo=-1e3, hi=1e3, styles=("raw", "raw", "int", "sparse")):
         t = (a - lo) / (hi - lo)
         a = np.where((t * 7.0) % 1.0 < 0.3, 0.0, a)
     # magnitudes below 1e-100 are snapped to exact zero: subnormal products/quotients are not what any property is about
-    a = np.where(np.abs(a) < 1e-100, 0.0, a)
+    a = np.where(np.abs(a) < tiny, 0.0, a)
     return (a + 0.0).tolist()
+
+
+def scalar(lo, hi, tiny=1e-100, nice=(0.0, 1.0)):
+    """one finite float in [lo, hi]; magnitudes below `tiny` are snapped to exact zero."""
+    parts = [st.floats(lo, hi, allow_nan=False, allow_infinity=False, allow_subnormal=False).map(lambda v: 0.0 if abs(v) < tiny else float(v))]
+    nice = [v for v in nice if lo <= v <= hi]
+    if nice:
+        parts.append(st.sampled_from(nice))
+    return st.one_of(*parts)
 
 
 def pos(lo, hi):
